@@ -67,6 +67,7 @@ from concurrent.futures import ThreadPoolExecutor
 from vf import build, tlc, trace
 from vf import run as hrun
 from vf.core import InfraError
+from checks.deferred import Deferred
 
 LEVEL = "model_checking"
 READY = True
@@ -143,7 +144,7 @@ def _gen_cfg(rd, name, fams, mod, res, inv=("Theorems",)):
                          invariants=list(inv), constraints=["Emit"], deadlock=False)
 
 
-def _replay_cases(ctx, exe, rd, tag, cases):
+def _replay_cases(ctx, exe, rd, tag, cases, deferred=None):
     cf = os.path.join(rd, "cases_%s.txt" % tag)
     with open(cf, "w") as fh:
         for i, e in enumerate(cases):
@@ -153,9 +154,13 @@ def _replay_cases(ctx, exe, rd, tag, cases):
         of = os.path.join(rd, "out_%s_%d.ndjson" % (tag, rounds))
         h = hrun.run(exe, [cf, of, start], timeout=1500)
         ev = hrun.read_ndjson(of)
-        if h.timed_out:
+        if h.timed_out and deferred is None:
             raise InfraError("c12_replay timed out on %s" % tag)
         fails += [e for e in ev if e.get("e") == "Fail"]
+        if h.timed_out:
+            # a changed routine may hang: not a verdict, but the comparisons made so far are still reported and the rest of the check runs
+            deferred.add("c12_replay timed out on %s" % tag)
+            break
         done = [e for e in ev if e.get("e") == "Done"]
         if done:
             nruns += done[0]["runs"]
@@ -170,7 +175,10 @@ def _replay_cases(ctx, exe, rd, tag, cases):
         start = cr["id"] + 1
         rounds += 1
         if rounds > 20:
-            raise InfraError("c12_replay keeps crashing on %s" % tag)
+            if deferred is None:
+                raise InfraError("c12_replay keeps crashing on %s" % tag)
+            deferred.add("c12_replay keeps crashing on %s: the cases behind the 21st crash (case %d of %d) were not run" % (tag, start, len(cases)))
+            break
     for f in fails:
         c = cases[f["id"]]
         ctx.violation(_sig_replay(f["routine"], f["exp"], c), "%s on A=%s * %s: entry (%d,%d) is %s, exact %s (nopivot-ok=%s prepivot-ok=%s leading-zero=%s)" % (
@@ -186,7 +194,7 @@ def _parse_witness(text):
     return eval(m.group(1).replace("<<", "[").replace(">>", "]"))
 
 
-def _run_model_and_replay(ctx, rd, lib):
+def _run_model_and_replay(ctx, rd, lib, deferred=None):
     exe = build.build_harness("c12r", ["c12_replay.c"], lib)
     s = ctx.seed
     allinv = ("Theorems", "ElimDefined", "SolveDefined")
@@ -220,7 +228,7 @@ def _run_model_and_replay(ctx, rd, lib):
             if len(r.emits) != r.distinct or r.distinct == 0:
                 raise InfraError("GEN %s: %d emitted cases for %d states" % (label, len(r.emits), r.distinct))
             cases = r.emits
-            fails, nruns = _replay_cases(ctx, exe, rd, label, cases)
+            fails, nruns = _replay_cases(ctx, exe, rd, label, cases, deferred)
             failed = collections.defaultdict(set)
             for f in fails:
                 failed[f["id"]].add((f["routine"], f["exp"]))
@@ -380,7 +388,7 @@ def _classes_of(mat, nproc):
     return t
 
 
-def _run_validate(ctx, rd, lib, only=None):
+def _run_validate(ctx, rd, lib, only=None, deferred=None):
     exe = build.build_harness("c12t", ["c12_trace.c"], lib)
     nparts = 4 if ctx.quick else 12
     tier = 0 if ctx.quick else 1
@@ -436,28 +444,31 @@ def _run_validate(ctx, rd, lib, only=None):
                 ctx.cls("K7:sized-stale-output")
             if e["e"] in ("Ols", "Penrose") and cur is not None and not (cur["m"] >= cur["n"] and cur["cond"] <= 1000 and cur["q"] == 1):
                 raise InfraError("c12_trace ran %s outside its quantifier (full column rank, cond <= 1e3): %s" % (e["e"], cur))
+    vac = []          # vacuity findings: judged after the trace validation (a routine that dies in its child on a changed tree leaves its event kind / class empty)
     if not only:
         for k in EVENT_KINDS:
             if kinds[k] == 0:
-                raise InfraError("validate direction vacuous: no %s event recorded" % k)
+                vac.append("validate direction vacuous: no %s event recorded" % k)
         for c in SQUARE_CLASSES:
             sizes = {m for m, n in cover[c]}
             need = 6 if c == "intsmall" else (5 if c == "offset" else 9)       # (a size is missed only if all three sweeps drew cond > 1e6)
             if len(sizes) < need:
-                raise InfraError("class %s reached only the sizes %s" % (c, sorted(sizes)))
+                vac.append("class %s reached only the sizes %s" % (c, sorted(sizes)))
         for shape_class in ("tall", "wide"):
             if len(cover[shape_class]) < 60:
-                raise InfraError("only %d distinct %s shapes recorded" % (len(cover[shape_class]), shape_class))
+                vac.append("only %d distinct %s shapes recorded" % (len(cover[shape_class]), shape_class))
         for want in ((12, 1), (2, 1), (12, 11)):
             if want not in cover["tall"] or (want[1], want[0]) not in cover["wide"]:
-                raise InfraError("rectangular shape %sx%s (or its transpose) missing" % want)
+                vac.append("rectangular shape %sx%s (or its transpose) missing" % want)
         for rt in HIST_ROUTINES:
             if per_routine_hist[rt] < 8:
-                raise InfraError("history blocks of %s recorded only %d calls" % (rt, per_routine_hist[rt]))
+                vac.append("history blocks of %s recorded only %d calls" % (rt, per_routine_hist[rt]))
         if not cover["rankdef"]:
-            raise InfraError("no rank-deficient SVD input recorded")
+            vac.append("no rank-deficient SVD input recorded")
         if not any(e.get("routine") == "MatrixPseudoinversion" for e in events):
-            raise InfraError("no MatrixPseudoinversion call recorded")
+            vac.append("no MatrixPseudoinversion call recorded")
+    if not only:
+        pass
     elif not any(e["e"] not in ("Reset", "End", "Start") for e in events):
         raise InfraError("replay: the recording no longer contains that plan item")
     for e in events:
@@ -501,7 +512,12 @@ def _run_validate(ctx, rd, lib, only=None):
     ctx.steps["validate"] = dict(plan_items=plan, matrices=kinds["Mat"], events=len(events), dropped_outside_quantifier=dropped, child_crashes=crashes,
                                  per_event={k: v for k, v in kinds.items()}, history_calls=dict(per_routine_hist), calls_into_sized_stale_outputs=dict(sized),
                                  shapes_per_class={k: len(v) for k, v in sorted(cover.items())})
-    if not only:
+    if vac:
+        if deferred is None:
+            raise InfraError("; ".join(vac[:4]))
+        for m in vac:
+            deferred.add(m)
+    if not only and not deferred:
         _binding_selftests(ctx, events, mats, bad_sigs)
 
 
@@ -616,13 +632,15 @@ def run(ctx):
     rd = tlc.rundir()
     try:
         lib = build.build_lib("san")
-        _run_model_and_replay(ctx, rd, lib)
-        _run_validate(ctx, rd, lib)
+        deferred = Deferred(ctx)
+        _run_model_and_replay(ctx, rd, lib, deferred)
+        _run_validate(ctx, rd, lib, deferred=deferred)
         ctx.cov["rule"] = ("replay: a case is one enumerated matrix run through the six routines at two scales; distinct key = (family, n, singular?, no-exchange "
                            "elimination defined?, pre-pass elimination defined?, leading zero); non-trivial = a pivot is 0 without exchange, or singular.  "
                            "ledger: a case is one generated matrix; key = (class, rows, cols, cond decade, leading zero, scale mode, history?); non-trivial = leading zero, "
                            "rectangular, permutation / zero-leading-minor / triangular / repeated-eigenvalue class, history block, scale 1e-6 / 1e6")
         ctx.cov["exhaustive"] = True
+        deferred.settle()
     finally:
         shutil.rmtree(rd, ignore_errors=True)
 
